@@ -644,6 +644,9 @@ func (x *c03) dischargeSlice(f *ssa.Function, v *ssa.Slice) (string, string) {
 		if cst, ok := madeAtLeast(v.X); ok && cst >= need {
 			return fmt.Sprintf("Gmake: constant bounds [%d:%d] of a buffer made with length %d + len(…)", lo, hi, cst), ""
 		}
+		if why := x.resultLenAtLeast(v, v.X, need); why != "" {
+			return why, ""
+		}
 		return "", fmt.Sprintf("constant slice bounds [%d:%d] without a dominating length guard on the sliced value", lo, hi)
 	}
 	// G2: x[:h] under len(x) >= h, h non-negative
@@ -993,6 +996,80 @@ func (x *c03) cursorGuardAt(at ssa.Instruction, base, low ssa.Value) string {
 		}
 	}
 	return ""
+}
+
+// resultLenAtLeast (Gres): s is the slice a step helper returned together with an error, used at `at` on the edge
+// where that error is nil; every return of the helper with a nil error hands back p[:h] (p one of its parameters)
+// at a point where the helper's own guards have established h ≥ need (h < K not taken with K ≥ need, h ≥ K taken).
+func (x *c03) resultLenAtLeast(at ssa.Instruction, s ssa.Value, need int64) string {
+	ex, ok := s.(*ssa.Extract)
+	if !ok {
+		return ""
+	}
+	call, ok := ex.Tuple.(*ssa.Call)
+	if !ok {
+		return ""
+	}
+	h := flow.StaticCallee(call)
+	if h == nil || h.Blocks == nil || !x.c.P.IsLibrary(h) {
+		return ""
+	}
+	ev := errorResult(call)
+	if ev == nil {
+		return ""
+	}
+	onNil := false
+	for _, gd := range flow.Guards(at) {
+		rl, ok := condRel(gd.If.Cond, gd.Taken)
+		if ok && rl.op == token.EQL && ((rl.a == ev && flow.IsNilConst(rl.b)) || (rl.b == ev && flow.IsNilConst(rl.a))) {
+			onNil = true
+		}
+	}
+	if !onNil {
+		return ""
+	}
+	nres := h.Signature.Results().Len()
+	n := 0
+	for _, b := range h.Blocks {
+		ret, ok := b.Instrs[len(b.Instrs)-1].(*ssa.Return)
+		if !ok || b == h.Recover || len(ret.Results) != nres {
+			continue
+		}
+		if !flow.IsNilConst(ret.Results[nres-1]) {
+			continue // an error return: not the edge the caller is on
+		}
+		sl, ok := ret.Results[ex.Index].(*ssa.Slice)
+		if !ok || sl.Low != nil || sl.High == nil {
+			return ""
+		}
+		if _, isP := sl.X.(*ssa.Parameter); !isP {
+			return ""
+		}
+		okGE := false
+		for _, gd := range flow.Guards(ret) {
+			rl, ok := condRel(gd.If.Cond, gd.Taken)
+			if !ok {
+				continue
+			}
+			same := func(v ssa.Value) bool {
+				return v == sl.High || sameVal(v, sl.High) || sameFieldLoad(h, v, sl.High)
+			}
+			if k, isK := flow.ConstInt(rl.b); isK && same(rl.a) && ((rl.op == token.GEQ && k >= need) || (rl.op == token.GTR && k+1 >= need)) {
+				okGE = true
+			}
+			if k, isK := flow.ConstInt(rl.a); isK && same(rl.b) && ((rl.op == token.LEQ && k >= need) || (rl.op == token.LSS && k+1 >= need)) {
+				okGE = true
+			}
+		}
+		if !okGE {
+			return ""
+		}
+		n++
+	}
+	if n == 0 {
+		return ""
+	}
+	return fmt.Sprintf("Gres: the slice %s returned on its nil-error edge is p[:h] with h ≥ %d established by the helper's own length test", h.Name(), need)
 }
 
 // madeAtLeast: v is a slice made right here with length c, or c + len(…); returns c.
@@ -1754,6 +1831,22 @@ func (x *c03) boundedSize(v ssa.Value, depth int) bool {
 			}
 		})
 		return good && nRet > 0
+	}
+	// the size handed to an unexported allocation helper: bounded when it is at every call site
+	if pp, isP := flow.Peel(v).(*ssa.Parameter); isP {
+		f := pp.Parent()
+		if f.Object() != nil && f.Object().Exported() || x.c.addressTaken(f) {
+			return false
+		}
+		idx := paramIndex(f, pp)
+		n := 0
+		for _, cs := range x.c.librarySites(f) {
+			if idx >= len(cs.Common().Args) || !x.boundedSize(cs.Common().Args[idx], depth+1) {
+				return false
+			}
+			n++
+		}
+		return n > 0
 	}
 	ph, ok := v.(*ssa.Phi)
 	if !ok {
